@@ -9,6 +9,7 @@
    the key that made it.  All statements are for documents of any size and shape. *)
 From PV Require Import Lib.Base Model.Status Model.Response Model.Xsw Proofs.Response_lemmas Proofs.C02_lemmas
   Proofs.Xsw_lemmas Proofs.C01_pipeline.
+From PV Require Import Model.XswIds Proofs.XswIds_lemmas.
 Open Scope N_scope.
 
 (* (0) Digest equality is structural equality (used everywhere below). *)
@@ -219,3 +220,84 @@ Example C01_wrapping_shapes_before_and_after :
     check_signature_before_fix pol doc nm i [IDP] && negb (check_signature_x pol doc nm i [IDP])) witnesses = true.
 Proof. vm_compute. reflexivity. Qed.
 Print Assumptions C01_wrapping_shapes_before_and_after.
+
+(* ------------------------------------------------------------------ (5) the identifier itself *)
+(* (5a) WHICH string is the ID.  The tool (--id-attr:ID) and the pre-check read the literal ID attribute of the
+   text; the object gets .id from the parsed attribute table (Model/XswIds.v).  For every well-formed attribute
+   table they are the same, whatever look-alikes (saml:ID, samlp:ID, xml:id, Id, id) stand around it - so the
+   element relied upon (the object) and the element [covered] speaks about (the text) are one. *)
+Theorem C01_item_id_is_literal_ID : forall al, wf_attrs al = true -> item_id al = literal_id al.
+Proof. exact item_id_is_literal. Qed.
+Print Assumptions C01_item_id_is_literal_ID.
+
+Theorem C01_item_id_ignores_look_alikes : forall pre post a,
+  (forall b, In b pre -> is_literal_id b = false) -> (forall b, In b post -> is_literal_id b = false) ->
+  is_literal_id a = true -> item_id (pre ++ a :: post) = Some (snd a).
+Proof. exact item_id_ignores_look_alikes. Qed.
+Print Assumptions C01_item_id_ignores_look_alikes.
+
+(* a reader that goes by the local name (NOT the code) is refuted: object says a-1, text says a-evil *)
+Definition SAMLNS := s2l "urn:oasis:names:tc:SAML:2.0:assertion".
+Theorem C01_reader_by_local_name_refuted :
+  exists al, wf_attrs al = true /\ literal_id al = Some evil /\ item_id al = Some evil /\ item_id_lax al = Some a1.
+Proof. exists [(None, s2l "ID", evil); (Some SAMLNS, s2l "ID", a1)]. vm_compute. repeat split. Qed.
+Print Assumptions C01_reader_by_local_name_refuted.
+
+(* (5b) WHICH string is handed over.  _check_signature hands ONE variable (item.id) to the pre-check and to the
+   tool: check_signature_g with both hand-overs the identity is check_signature_x, the function all theorems above
+   are about.  TESTED on every run (not proved): the argv the library really passes has --node-id byte-for-byte
+   item.id, and the pre-check was given that same string, node name, attribute name and document. *)
+Theorem C01_one_identifier : forall pol doc nm i certs,
+  check_signature_g (fun v => v) (fun v => v) pol doc nm i certs = check_signature_x pol doc nm i certs.
+Proof. exact check_signature_one_identifier. Qed.
+Print Assumptions C01_one_identifier.
+
+(* any treatment fp / ft of the identifier on the way keeps the statement as long as both hand-overs still get the
+   same string and it is still the object's id *)
+Theorem C01_relied_is_covered_same_identifier : forall fp ft pol doc nm v certs,
+  ft v = fp v -> fp v = v ->
+  check_signature_g fp ft pol doc nm (Some v) certs = true ->
+  exists px X k D, covered doc nm v certs px X k D.
+Proof. exact relied_is_covered_g. Qed.
+Print Assumptions C01_relied_is_covered_same_identifier.
+
+(* ... and it is lost as soon as ONE side normalises.  Tool side (--node-id trimmed): the forged assertion's literal ID
+   is the genuine one plus a blank, its own first Signature child is worthless but well shaped, the genuine signed
+   assertion sits behind it - accepted, not covered; with one identifier refused. *)
+Definition a1sp : str := a1 ++ [32].
+Definition forgedA_tool := El ASSN (Some a1sp) 20 [decoy a1sp; El ADVICE None 70 [assertion1]; admin].
+Definition doc_tool := El RESP (Some r1) 40 [forgedA_tool].
+Theorem C01_tool_side_normalisation_refuted :
+  rstrip a1sp = a1 /\
+  (forall pol, check_signature_g (fun v => v) rstrip pol doc_tool ASSN (Some a1sp) [IDP] = true) /\
+  (forall px X k D, ~ covered doc_tool ASSN a1sp [IDP] px X k D) /\
+  (forall pol, check_signature_x pol doc_tool ASSN (Some a1sp) [IDP] = false).
+Proof.
+  split; [vm_compute; reflexivity|split; [|split]].
+  - intros []; vm_compute; reflexivity.
+  - intros px X k D [_ Hat _ Huniq Hsig _ _ _].
+    assert (px = [0]%nat) as -> by (symmetry; apply (Huniq [0]%nat forgedA_tool); reflexivity).
+    cbn in Hat. injection Hat as <-. destruct Hsig as (key & sid & spl & skids & Hk & _).
+    destruct k as [|[|[|[|k]]]]; vm_compute in Hk; discriminate.
+  - intros []; vm_compute; reflexivity.
+Qed.
+Print Assumptions C01_tool_side_normalisation_refuted.
+
+(* Pre-check side (the pre-check looks up the trimmed id, the tool gets the raw one): the genuine signed assertion
+   nested FIRST inside the forged one, which carries a copy of the signature as its own child. *)
+Definition forgedA_pre := El ASSN (Some a1sp) 20 [El ADVICE None 70 [assertion1]; sigA; admin].
+Definition doc_pre := El RESP (Some r1) 40 [forgedA_pre].
+Theorem C01_precheck_side_normalisation_refuted :
+  (forall pol, check_signature_g rstrip (fun v => v) pol doc_pre ASSN (Some a1sp) [IDP] = true) /\
+  (forall px X k D, ~ covered doc_pre ASSN a1sp [IDP] px X k D) /\
+  (forall pol, check_signature_x pol doc_pre ASSN (Some a1sp) [IDP] = false).
+Proof.
+  split; [|split].
+  - intros []; vm_compute; reflexivity.
+  - intros px X k D [_ Hat _ Huniq Hsig _ _ _].
+    assert (px = [0]%nat) as -> by (symmetry; apply (Huniq [0]%nat forgedA_pre); reflexivity).
+    cbn in Hat. injection Hat as <-. destruct Hsig as (key & sid & spl & skids & Hk & _).
+    destruct k as [|[|[|[|k]]]]; vm_compute in Hk; discriminate.
+  - intros []; vm_compute; reflexivity.
+Qed.
+Print Assumptions C01_precheck_side_normalisation_refuted.
